@@ -26,6 +26,32 @@ var atoms = []string{
 	`AA = / x/`, `BB = /x /`, `BB = /a\/b /`, `AA = "\"x\\"`,
 }
 
+type renaming struct {
+	res []*regexp.Regexp
+	to  []string
+}
+
+func mkRenaming(pairs ...string) renaming {
+	var rn renaming
+	for i := 0; i+1 < len(pairs); i += 2 {
+		rn.res = append(rn.res, regexp.MustCompile(`\b`+pairs[i]+`\b`))
+		rn.to = append(rn.to, pairs[i+1])
+	}
+	return rn
+}
+
+func (rn renaming) apply(text string) string {
+	for i, re := range rn.res {
+		text = re.ReplaceAllString(text, rn.to[i])
+	}
+	return text
+}
+
+var renamings = []renaming{
+	mkRenaming("z", "startup", "q", "restart", "AA", "START", "BB", "STARTS", "UU", "START_UP"),
+	mkRenaming("z", "left", "q", "gen_z_opt", "AA", "ID", "BB", "WS", "UU", "EOF"),
+}
+
 // The predefined patterns as the harness reads them (anchor: ebnf/parser Predefs): name -> pattern.
 var predefs = map[string]string{
 	"$WS":      `[\x09\x0A\x0D\x20]`,
@@ -451,7 +477,7 @@ func main() {
 	}
 	// the harness's reading of the predefined patterns must itself be the implementation's table (reported, not fatal)
 	if r.Fork(16) {
-		r.Set("rule", fmt.Sprintf("every sequence (order matters, repetition allowed) of up to the bound of %d declaration atoms seeding every listed defect and their well-formed counterparts; non-trivial = every sequence (distinct by text); evaluations = specifications parsed", len(atoms)))
+		r.Set("rule", fmt.Sprintf("every sequence (order matters, repetition allowed) of up to the bound of %d declaration atoms seeding every listed defect and their well-formed counterparts, each also under two renamings of its rules and tokens (names containing `start`, names of predefined patterns and of skipped tokens, a name of the synthesised form); non-trivial = every sequence (distinct by text); evaluations = specifications parsed", len(atoms)))
 		r.Set("evaluations", r.Get("specs"))
 		r.Finish()
 	}
@@ -486,6 +512,11 @@ func main() {
 			checkText(r, b.String())
 			if n%997 == 0 {
 				r.Sample(b.String())
+			}
+			// the same declarations under other names: names that contain the words the tool itself uses (the start
+			// symbol, keywords, predefined names, synthesised names) are names like any other
+			for _, rn := range renamings {
+				checkText(r, rn.apply(b.String()))
 			}
 		}
 		if k == 0 {
